@@ -92,7 +92,31 @@ func genC15(t *rapid.T) *C15Case {
 			}
 		})
 	}
+	// long names of the parser's own options that differ in case only, and a
+	// third spelling on the command line (a lenient lookup has to choose)
+	caseVariant := ""
+	if rapid.IntRange(0, 7).Draw(t, "caseVariants") == 0 {
+		var top []*Opt
+		taken := map[string]bool{}
+		for _, o := range d.AllOpts() {
+			taken[o.NsLong] = true
+			if len(o.Chain) == 1 && len(o.Groups) == 2 && o.Groups[1].Namespace == "" && o.Long != "" && !o.ViaAdd && strings.ToLower(o.Long) == o.Long && strings.ToUpper(o.Long) != o.Long {
+				top = append(top, o.Opt)
+			}
+		}
+		if len(top) >= 2 {
+			base := top[0].Long
+			variant := strings.ToUpper(base[:1]) + base[1:]
+			if !taken[variant] && !taken[strings.ToUpper(base)] {
+				top[1].Long = variant
+				caseVariant = "--" + strings.ToUpper(base)
+			}
+		}
+	}
 	c.Args = genArgv(t, d, c15Argv)
+	if caseVariant != "" {
+		c.Args = append([]string{caseVariant}, c.Args...)
+	}
 	if rapid.IntRange(0, 2).Draw(t, "nearMissCmd") == 0 {
 		// an unknown command word close to several command names (ties in the suggestion)
 		cur := &d.Root
